@@ -3,6 +3,7 @@ import MosnVerif.Model.PoolSpec
 import MosnVerif.Model.StreamOnce
 import MosnVerif.Model.PoolMux
 import MosnVerif.Model.PoolH2
+import MosnVerif.Drive.C09Win
 namespace MosnVerif.Drive.C09
 open MosnVerif.Drive MosnVerif.Model.Pool
 
@@ -312,6 +313,7 @@ def run (caseToks impl : List String) : String :=
   | ["mux", mc, mr, ops] => Mux.mux mc mr ops impl
   | ["once", threads, sched] => once threads sched impl
   | ["pool", kind, mc, mr, ops] => pool kind mc mr ops impl
+  | ["win", kind, mc, mr, ops] => C09Win.win kind mc mr ops impl
   | ["conc", _, _, mr, _, _, _] => conc mr impl
   | _ => "E E unknown-kind"
 
